@@ -1,5 +1,8 @@
 """C03 cases: division and remainder."""
 from .common import *
+from . import widthsweep as _ws
+
+HARNESS_BINS_THOROUGH = ["widths"]
 from .knuth import addback_pairs, knuth_events
 
 EXTRA_QUICK = ["8x4", "16x4", "32x4", "64x4"]  # n >= 4: add-back at quotient positions j >= 1
@@ -113,6 +116,8 @@ def _gen_main(rng, tier):
 
 def gen(rng, tier):
     yield from _gen_main(rng, tier)
+    if tier == "thorough":
+        yield from _ws.rem(rng)
     yield from _grid(rng, tier)
     yield from _huge(rng, tier)
     yield from _exh8(rng, tier)
@@ -151,3 +156,7 @@ def _exh8(rng, tier):
             for a in range(256):
                 for b in range(256):
                     yield f"{op} {s}8x1 {hx(a)} {hx(b)}", "exhaustive8"
+
+
+def ROUTE(line):
+    return _ws.route(line, "c03")
